@@ -762,6 +762,11 @@ func liveSupplement(run *vkRun, tier string) {
 	// the writer goroutine's select are forced by holding its write until the
 	// stream is stopped; repeated until both have been seen (64 trials)
 	written, leftover, detail, crashed := liveDesyncChild(exe, 64)
+	if crashed != "" && !strings.Contains(crashed, "panic:") && !strings.Contains(crashed, "fatal error:") {
+		// the child did not finish for a reason that is not the library's (killed, resources): nothing decided
+		run.Cov["pipeline_stop_desync_undecided"] = crashed
+		crashed = ""
+	}
 	if crashed != "" {
 		// the free-running node terminated its process (panic / fatal error): that is what C15 forbids
 		run.Violation("live:process-terminated:desync-script", "the free-running node of the pipeline-stop script terminated its process: "+crashed, map[string]interface{}{"cmd": "vraft desync --trials 64"})
